@@ -3,7 +3,8 @@ CONSTANTS
   WLS = {4,5,10,20,25}
   NMin = 2
   NMax = 4
-  NCol = 4
+  NCols = {4}
+  NMax3 = 0
   Wids = {1,7}
   H = 100
   U = 1
